@@ -2692,3 +2692,21 @@ def rows_to_grid(interp, st, rows, node, oblige=True):
         return out
 
     return M.grid_lambda([n, rows.width], ak.kind, fn)
+
+
+def m_str_startswith(interp, st, base, base_node, args, kwargs, node):
+    """s.startswith(prefix) / s.endswith(suffix) on (symbolic) strings"""
+    if kwargs or len(args) != 1:
+        raise Outside("startswith / endswith with start / end arguments", node)
+    which = getattr(node.func, "attr", "startswith") if isinstance(node, ast.Call) and isinstance(node.func, ast.Attribute) else "startswith"
+    a = z3.StringVal(base) if isinstance(base, str) else base
+    b = z3.StringVal(args[0]) if isinstance(args[0], str) else args[0]
+    if not (is_sym(a) and is_sym(b) and a.sort() == z3.StringSort() and b.sort() == z3.StringSort()):
+        raise Outside("startswith on non-strings", node)
+    if isinstance(base, str) and isinstance(args[0], str):
+        return base.startswith(args[0]) if which == "startswith" else base.endswith(args[0])
+    return z3.PrefixOf(b, a) if which == "startswith" else z3.SuffixOf(b, a)
+
+
+METHODS[("scalar", "startswith")] = m_str_startswith
+METHODS[("scalar", "endswith")] = m_str_startswith
